@@ -31,13 +31,19 @@ type c16Crop struct {
 	code           string
 	sow, harvest   string // rotation dates
 	sow1, sow2, h2 string // ddmm windows of the base table
+	autorg         int    // 1: organic fertiliser of the table row is applied automatically for this entry
 }
 
 var c16Rots = [][]c16Crop{
-	{{"SM", "2002-04-20", "2002-09-25", "1004", "1505", "3009"}, {"WW", "2002-10-15", "2003-07-30", "0510", "0511", "1508"}, {"SM", "2004-04-20", "2004-09-25", "1004", "1505", "3009"}},
-	{{"WW", "2001-10-05", "2002-07-25", "2009", "2510", "1508"}, {"SW", "2003-03-25", "2003-08-10", "0103", "1504", "3108"}, {"ZR", "2004-04-10", "2004-10-10", "2503", "3004", "3110"}},
-	{{"SOY", "2002-05-01", "2002-09-20", "2004", "2005", "2509"}, {"WG", "2002-10-05", "2003-07-10", "0110", "2510", "3107"}},
-	{{"SW", "2002-03-25", "2002-08-10", "0103", "1504", "3108"}, {"WR", "2002-10-10", "2003-07-25", "0110", "1011", "1508"}},
+	{{"SM", "2002-04-20", "2002-09-25", "1004", "1505", "3009", 0}, {"WW", "2002-10-15", "2003-07-30", "0510", "0511", "1508", 0}, {"SM", "2004-04-20", "2004-09-25", "1004", "1505", "3009", 0}},
+	{{"WW", "2001-10-05", "2002-07-25", "2009", "2510", "1508", 0}, {"SW", "2003-03-25", "2003-08-10", "0103", "1504", "3108", 0}, {"ZR", "2004-04-10", "2004-10-10", "2503", "3004", "3110", 0}},
+	{{"SOY", "2002-05-01", "2002-09-20", "2004", "2005", "2509", 0}, {"WG", "2002-10-05", "2003-07-10", "0110", "2510", "3107", 0}},
+	{{"SW", "2002-03-25", "2002-08-10", "0103", "1504", "3108", 0}, {"WR", "2002-10-10", "2003-07-25", "0110", "1011", "1508", 0}},
+	// a permanent crop followed by a permanent crop after a short fallow in summer
+	{{"AA", "2002-05-10", "2002-07-05", "0105", "2005", "1007", 0}, {"GR", "2002-07-20", "2002-10-10", "1507", "2507", "1510", 0}},
+	// automatic organic fertiliser (timed by the harvest in the table) on entries in the middle and at the end of the rotation
+	{{"SM", "2002-04-20", "2002-09-25", "1004", "1505", "3009", 0}, {"WW", "2002-10-15", "2003-07-30", "0510", "0511", "1508", 1}, {"SM", "2004-04-20", "2004-09-25", "1004", "1505", "3009", 0}},
+	{{"WW", "2001-10-05", "2002-07-25", "2009", "2510", "1508", 0}, {"SW", "2003-03-25", "2003-08-10", "0103", "1504", "3108", 1}, {"ZR", "2004-04-10", "2004-10-10", "2503", "3004", "3110", 1}},
 }
 
 // c16Row renders one automan.txt row at the fixed columns the reader uses.
@@ -133,9 +139,9 @@ func init() {
 		Assumptions: []string{"tables: base, narrow window with unsatisfiable moisture conditions, no windows (rotation dates), latest harvest 5 days after the sowing window, one-stage irrigation with small maximum, wide irrigation with maximum-temperature sowing, temperature sum for sowing never reached", "the sowing window and latest harvest date belong to the year of the rotation entry's sowing and harvest date"},
 		Bound: func(t string) string {
 			if t == "quick" {
-				return "4 rotations x 7 tables x 16 switch combinations x 3^3 block words"
+				return "7 rotations (incl. permanent crop after permanent crop, automatic organic fertiliser on middle and last entries) x 7 tables x 16 switch combinations x 3^3 block words"
 			}
-			return "4 rotations x 7 tables x 16 switch combinations x 4^4 block words"
+			return "7 rotations x 7 tables x 16 switch combinations x 4^4 block words"
 		},
 		Budget: func(t string) time.Duration {
 			if t == "quick" {
@@ -176,17 +182,17 @@ func c16Run(raw json.RawMessage, c *mc.Ctx) {
 	table.WriteString("crp Sow1 Sow2 har2 TSmin Smomin Smomax Hmomin Hmomax Rainav Rainact TACCU Tbase Irrdv1 Irrdv2 Ndem1 Ndem2 Ndem3 stage1 stage 2 stage 3 Twindow orgF  amount appdat Irrlow irrdep irrmax\n")
 	seen := map[string]bool{}
 	for _, cr := range rot {
-		p.Rotation = append(p.Rotation, proj.CropEntry{Crop: cr.code, Sow: cr.sow, Harvest: cr.harvest, Rex: 50})
+		p.Rotation = append(p.Rotation, proj.CropEntry{Crop: cr.code, Sow: cr.sow, Harvest: cr.harvest, Rex: 50, AutOrg: cr.autorg})
 		if !seen[cr.code] {
 			// a decoy row whose code starts with this crop's code comes first (e.g. WRA before WR): rows are matched by the whole code
 			if len(cr.code) == 2 {
-				table.WriteString(c16Row(c16Crop{cr.code + "A", "", "", "0501", "0601", "0107"}, 0) + "\n")
+				table.WriteString(c16Row(c16Crop{cr.code + "A", "", "", "0501", "0601", "0107", 0}, 0) + "\n")
 			}
 			table.WriteString(c16Row(cr, sp.Table) + "\n")
 			seen[cr.code] = true
 		}
 	}
-	table.WriteString(c16Row(c16Crop{"WW", "", "", "2009", "2510", "1508"}, 0) + "\n")
+	table.WriteString(c16Row(c16Crop{"WW", "", "", "2009", "2510", "1508", 0}, 0) + "\n")
 	p.Rotation = append(p.Rotation, proj.CropEntry{Crop: "WW", Sow: "2008-10-01", Harvest: "2009-07-30"})
 	p.Automan = table.String()
 	bs := func(v bool) string { return map[bool]string{true: "1", false: "0"}[v] }
